@@ -31,11 +31,16 @@ func Replay(id, file string) int {
 		fmt.Println(err)
 		return 2
 	}
+	fmt.Printf("replaying %s: %s\n", v.Key, v.What)
 	f, ok := Replayers[id]
 	if !ok {
-		fmt.Printf("no replayer for %s\n", id)
-		return 2
+		chk, ok := Registry[id]
+		if !ok {
+			fmt.Printf("no check %s\n", id)
+			return 2
+		}
+		os.Setenv("VERIF_REPLAY_KEY", v.Key)
+		return chk("quick")
 	}
-	fmt.Printf("replaying %s: %s\n", v.Key, v.What)
 	return f(v.Replay)
 }
